@@ -15,7 +15,7 @@ RULE = ("implicit: Hypothesis build programs without explicit relations (<= 8 it
         "and earlier), the returned circuit lists the same objects as the flattened one, and "
         "a second flatten() changes neither listing nor schedule. deep_programs: fixed long programs of k sub-circuits x m "
         "sequential gates (6x100, 3x250; thorough also 12x120, 40x50, 2x1200), same clauses. library: repetition-code circuits (d 2..4, 0..6 cycles, "
-        "refocusing on/off; data qubits prepared in every one of the six initial states; long experiments of 30 and 45 cycles, thorough up to 200 cycles, multi-round up to 60 cycles per block), the simplified constructor, multi-round experiments and calibration circuits, modifiers "
+        "refocusing on/off; data qubits prepared in every one of the six initial states; built, flattened and read under non-default global duration settings including values that are not exactly representable in binary (0.7/0.1/0.1/0.3, 3e-7/2e-8/6e-8/5e-7, ...); long experiments of 30 and 45 cycles, thorough up to 200 cycles, multi-round up to 60 cycles per block), the simplified constructor, multi-round experiments and calibration circuits, modifiers "
         "applied: listing signature sequence, schedule, duration, acquisition indices (per qubit and per tag) and the "
         "exported Stim text are identical before and after flatten(). Non-trivial = nesting depth >= 2 or >= 2 sibling "
         "sub-circuits; distinct = canonical JSON.")
@@ -136,6 +136,15 @@ def items_library(tier):
             states = [six[(shift + 2 * i) % 6] if shift % 2 == 0 else six[(shift + i) % 6] for i in range(d)]
             yield {"ctor": "repcode", "d": d, "cycles": 2, "states": states}
             yield {"ctor": "multi", "d": d, "rounds": [1, 2], "states": states}
+    # duration settings, including values that are not exactly representable (times that tie on paper differ by rounding)
+    settings = [[0.7, 0.1, 0.1, 0.3], [1.1, 0.3, 0.2, 0.7], [0.3, 0.1, 0.1, 0.3], [4.0, 1.0, 2.0, 2.0], [3e-7, 2e-8, 6e-8, 5e-7]]
+    if tier != "quick":
+        settings += [[0.9, 0.3, 0.1, 0.1], [0.5, 0.7, 0.2, 0.3], [2.0, 1.0, 0.5, 7.0], [1.7e-6, 4e-8, 1.2e-7, 3e-7]]
+    for g in settings:
+        for d in (2, 3):
+            yield {"ctor": "simplified", "d": d, "cycles": 2 + (d % 2), "durations": g}
+            yield {"ctor": "repcode", "d": d, "cycles": 3, "durations": g}
+            yield {"ctor": "multi", "d": d, "rounds": [2, 1, 3], "durations": g}
     # long experiments: the flattened circuit is one graph as deep as the whole program (about 19 relation layers per
     # QEC cycle), far deeper than any of the nested graphs it is built from
     for d, c in ([(2, 30), (3, 45)] if tier == "quick" else [(2, 30), (3, 45), (2, 90), (3, 120), (2, 200)]):
@@ -159,15 +168,17 @@ def body_library(case, ctx):
         fp["by_tag"] = {(q, t): [int(x) for x in c.get_acquisition_indices(AcquisitionTag(q, t))] for q in qs for t in tags}
         return fp
     before = after = None
-    with ctx.lib("construct + unroll + observe"):
-        circ = build_library(case).apply_modifiers()
-        before = observe(circ)
-    if before is None:
-        return
-    with ctx.lib("flatten + observe"):
-        flat = circ.flatten()
-        after = observe(flat)
-        comps = list(flat.composite_operations)
+    # (optional) global duration setting the circuit is built, flattened and read under
+    with P.global_override(case.get("durations")):
+        with ctx.lib("construct + unroll + observe"):
+            circ = build_library(case).apply_modifiers()
+            before = observe(circ)
+        if before is None:
+            return
+        with ctx.lib("flatten + observe"):
+            flat = circ.flatten()
+            after = observe(flat)
+            comps = list(flat.composite_operations)
     if after is None:
         return
     d = fp_diff(before, after)
